@@ -303,7 +303,11 @@ func genRuleSet(seed int64) *ruleSet {
 	}
 	np := 1 + rng.Intn(3)
 	for i := 0; i < np; i++ {
-		rs.Pool = append(rs.Pool, randName(rng, 1, 3))
+		if rng.Intn(10) == 0 {
+			rs.Pool = append(rs.Pool, randName(rng, 4, 7)) // deep names: boundaries and shadowing at depth
+		} else {
+			rs.Pool = append(rs.Pool, randName(rng, 1, 3))
+		}
 	}
 	prof := profiles[rng.Intn(len(profiles))]
 	n := 1 + rng.Intn(10)
